@@ -339,7 +339,8 @@ def execute(case, env, fail_at=None, breakage=None):
     ev = [(e, p) for e, p in ev if not audit.inside(p, lib)]
     digest = output_digest(allowed) if name not in NO_OUTPUT else (None, 0)
     return {"outcome": outcome, "events": list(ev), "points": st.n, "fired": st.fired, "snap_ok": snap_ok,
-            "allowed": allowed, "out_abs": out_abs, "digest": digest}
+            "allowed": allowed, "out_abs": out_abs, "digest": digest,
+            "roots": [os.path.realpath(os.path.dirname(env.p1)), os.path.realpath(cwd)]}
 
 
 def output_digest(prefixes):
@@ -387,12 +388,31 @@ def judge(rec, case, sub, env, r, must_fail, good_digest=None):
         if ins:
             rec.fail("wrote_into_input", sub, "%s %s" % (e, os.path.relpath(p, env.root)))
             break
-    for e, p in r["events"]:
-        if any(audit.inside(p, i) for i in env.inputs):
-            continue
-        if not any(p.startswith(a) for a in r["allowed"]):      # 'out_x', 'out_x.npz', 'out_x/...'
-            rec.fail("wrote_outside_output", sub, "%s %s (allowed prefixes %s)" % (e, p, r["allowed"]))
-            break
+    if r["out_abs"] is not None:
+        for e, p in r["events"]:
+            if any(audit.inside(p, i) for i in env.inputs):
+                continue
+            if not any(p.startswith(a) for a in r["allowed"]):      # 'out_x', 'out_x.npz', 'out_x/...'
+                rec.fail("wrote_outside_output", sub, "%s %s (requested output %s)" % (e, p, r["allowed"]))
+                break
+    else:
+        # default output: ONE file or ONE directory tree beside the input (or in the working directory) - whatever
+        # its name - never several entries strewn over that directory, never anything elsewhere
+        tops = set()
+        for e, p in r["events"]:
+            if any(audit.inside(p, i) for i in env.inputs):
+                continue
+            roots = [a for a in r["roots"] if audit.inside(p, a) and p != a]
+            if not roots:
+                if p in r["roots"]:
+                    continue        # makedirs(exist_ok) probing the directory itself
+                rec.fail("wrote_outside_output", sub, "%s %s is neither beside the input nor in the working directory" % (e, p))
+                break
+            root = max(roots, key=len)
+            tops.add(os.path.join(root, os.path.relpath(p, root).split(os.sep)[0]))
+        else:
+            if len(tops) > 1:
+                rec.fail("wrote_outside_output", sub, "default output is not one file or tree: %s" % sorted(os.path.relpath(t, env.root) for t in tops)[:4])
 
 
 def default_prefixes(name, env, cwd, opt):
